@@ -17,7 +17,7 @@ class StatementSplitter:
     def _reset(self):
         """Set the filter attributes to its default values"""
         self._in_declare = False
-        self._in_case = False
+        self._in_case = 0
         self._is_create = False
         self._begin_depth = 0
 
@@ -68,13 +68,14 @@ class StatementSplitter:
             if not self._in_case:
                 self._begin_depth = max(0, self._begin_depth - 1)
             else:
-                self._in_case = False
+                self._in_case -= 1
             return -1
 
         if (unified in ('IF', 'FOR', 'WHILE', 'CASE')
                 and self._is_create and self._begin_depth > 0):
             if unified == 'CASE':
-                self._in_case = True
+                # CASE can be nested (an expression inside a CASE statement)
+                self._in_case += 1
             return 1
 
         if unified in ('END IF', 'END FOR', 'END WHILE'):
